@@ -333,7 +333,11 @@ func RunShardFromEnv() (ok bool) {
 	}
 
 	if lim, ok := p.(interface{ HangLimit() time.Duration }); ok {
-		go watchdog(p.ID(), c, lim.HangLimit())
+		d := lim.HangLimit()
+		if v := envInt("VERIF_HANG_LIMIT", 0); v > 0 {
+			d = time.Duration(v) * time.Second
+		}
+		go watchdog(p.ID(), c, d)
 	}
 	if lp, isLooper := p.(Looper); isLooper {
 		lp.Loop(c)
